@@ -45,6 +45,22 @@ type govcMixed struct {
 	govcEmb
 }
 
+type govcStringTagged struct {
+	A byte
+	N int8 `json:"n,string"`
+	B byte
+	U uint16 `json:"u,string"`
+	C byte
+	S string `json:"s,string"`
+	F float32 `json:"f,string"`
+	D byte
+	P *int `json:"p,string"`
+	T bool `json:"t,string"`
+	E byte
+}
+
+const govcPrefill = `{"A":7,"B":[7,7,7],"C":"old","D":[7,7,7,7],"I":[{"A":7,"B":7,"C":7},{"A":7,"B":7,"C":7}],"E":7,"n":"7","u":"7","f":"7","t":"true","X":7,"Y":"y"}`
+
 func TestGovcBounded(t *testing.T) {
 	thorough := os.Getenv("GOVC_TIER") == "thorough"
 	types := []reflect.Type{
@@ -57,12 +73,14 @@ func TestGovcBounded(t *testing.T) {
 			A [3]uint8
 			B [8]uint8
 		}{}),
+		reflect.TypeOf(govcStringTagged{}),
 	}
 	docs := []string{
 		`null`, `[]`, `[1]`, `[1,2]`, `[1,2,3]`, `[1,2,3,4,5]`, `[[1],[2,3,4,5]]`, `{}`, `{"A":1}`, `{"A":[1]}`, `{"A":[],"B":[1,2]}`, `{"B":[1,2,3,4],"C":"x","D":[1,2]}`,
 		`{"E":5,"F":{"k":1},"G":[1,"a",{}],"H":true,"I":[{"A":1},{"B":2,"C":3}],"J":1.5,"K":"YWJj","L":{"X":1,"Y":"y"},"X":3,"Y":"z"}`,
 		`{"A":{"A":1,"B":"b"}}`, `[{"A":1,"B":"s"},{"A":[1,2,3,4,5,6,7,8,9]}]`, `"str"`, `"YWJj"`, `true`, `7`, `-1.5`, `300`, `70000`,
 		`[1,2`, `{"A":[1,`, `{"A":1,"B"`, `[1,2,3,4,5,6,7,8,9,10,11,12]`, `{"k":1,"j":2}`, `{"k":{"A":1,"B":2,"C":3}}`, `[{"A":[9,9,9]}]`, `{"A":"x","B":null}`,
+		`{"n":null}`, `{"n":"5","u":null,"s":null,"f":null,"p":null,"t":null}`, `{"n":"-3","u":"9","s":"\"q\"","f":"1.5","p":"7","t":"true"}`,
 		`[null,null,null,null]`, `{"I":[null,{"A":7}],"B":[null,1]}`, `{"D":null,"E":null,"F":null,"K":null,"L":null}`,
 	}
 	if thorough {
@@ -92,7 +110,7 @@ func TestGovcBounded(t *testing.T) {
 				}
 				// pre-fill the destination with a previous value so that stale contents matter
 				_ = stdjson.Unmarshal([]byte(`[7,7,7]`), ov.Field(1).Addr().Interface())
-				_ = stdjson.Unmarshal([]byte(`{"A":7,"B":[7,7,7],"C":"old","D":[7,7,7,7],"I":[{"A":7,"B":7,"C":7},{"A":7,"B":7,"C":7}]}`), ov.Field(1).Addr().Interface())
+				_ = stdjson.Unmarshal([]byte(govcPrefill), ov.Field(1).Addr().Interface())
 				what := fmt.Sprintf("type=%v doc=%s mode=%d", typ, d, mode)
 				func() {
 					defer func() {
@@ -112,6 +130,31 @@ func TestGovcBounded(t *testing.T) {
 					}
 					if ov.Field(2).Index(i).Uint() != canary {
 						record(fmt.Sprintf("canary-after-clobbered-%v", typ.Kind()), what)
+					}
+				}
+				// members the document does not address keep their previous contents: compare the fields whose
+				// names do not occur in the document with a copy that was only pre-filled
+				if typ.Kind() == reflect.Struct {
+					ref := reflect.New(typ).Elem()
+					_ = stdjson.Unmarshal([]byte(`[7,7,7]`), ref.Addr().Interface())
+					_ = stdjson.Unmarshal([]byte(govcPrefill), ref.Addr().Interface())
+					got := ov.Field(1)
+					for fi := 0; fi < typ.NumField(); fi++ {
+						f := typ.Field(fi)
+						name := f.Name
+						if tag := f.Tag.Get("json"); tag != "" {
+							if i := bytes.IndexByte([]byte(tag), ','); i > 0 {
+								name = tag[:i]
+							} else if i < 0 {
+								name = tag
+							}
+						}
+						if f.Anonymous || bytes.Contains(bytes.ToLower([]byte(d)), []byte(`"`+string(bytes.ToLower([]byte(name)))+`"`)) {
+							continue
+						}
+						if !reflect.DeepEqual(got.Field(fi).Interface(), ref.Field(fi).Interface()) {
+							record(fmt.Sprintf("unaddressed-field-changed-%v", typ.Name()), fmt.Sprintf("%s: field %s is %v, was %v", what, f.Name, got.Field(fi).Interface(), ref.Field(fi).Interface()))
+						}
 					}
 				}
 				// the destination must be a well-formed Go value: traverse it completely
